@@ -701,6 +701,10 @@ def rule_modf(prog, rep, tier, workers=("conformance._conform_filename", "sync_p
         for st in ast.walk(fi.node):
             if isinstance(st, ast.Assign):
                 for t in st.targets:
+                    if isinstance(t, ast.Attribute) and t.attr not in AST_FIELDS and not isinstance(t.value, ast.Name) or \
+                            (isinstance(t, ast.Attribute) and t.attr not in AST_FIELDS and t.attr in ("default", "_idx", "_location")):
+                        n += 1
+                        rep.holds("MOD-F", "%s: %s is not an AST field" % (q, src(t, 40)), loc(prog, st), "invisible to unparse")
                     if isinstance(t, ast.Attribute) and t.attr in AST_FIELDS:
                         n += 1
                         if _is_identity_relist(prog, fi, t, st.value):
@@ -715,7 +719,7 @@ def rule_modf(prog, rep, tier, workers=("conformance._conform_filename", "sync_p
                     rep.holds("MOD-F", "%s: setattr(..., %r, ...) is not an AST field" % (q, nm), loc(prog, st), "invisible to unparse")
                 else:
                     rep.violation(Finding("MOD-F", q, "setattr:%s" % src(st, 50), "%s sets an AST field (or a computed attribute) on a node of the tree" % q, loc(prog, st)))
-    if n < 4:
+    if n < 3:
         raise AnalysisError("MOD-F: only %d write sites examined on the read->write path" % n)
 
 
@@ -724,10 +728,26 @@ def _is_identity_relist(prog, fi, target, value):
     v = value
     if isinstance(v, ast.Call) and isinstance(v.func, ast.Name) and v.func.id == "list" and v.args:
         v = v.args[0]
-    if not (isinstance(v, ast.Call) and isinstance(v.func, ast.Name) and v.func.id == "map" and len(v.args) == 2):
+    if isinstance(v, (ast.ListComp, ast.GeneratorExp)) and len(v.generators) == 1 and not v.generators[0].ifs and isinstance(v.elt, ast.Call) \
+            and len(v.elt.args) == 1 and dump(v.elt.args[0]) == dump(ast.Name(id=getattr(v.generators[0].target, "id", "?"), ctx=ast.Load())):
+        fe, it = v.elt.func, v.generators[0].iter
+    elif isinstance(v, ast.Call) and isinstance(v.func, ast.Name) and v.func.id == "map" and len(v.args) == 2:
+        fe, it = v.args
+    else:
         return False
-    fe, it = v.args
-    if not (isinstance(it, ast.Call) and isinstance(it.func, ast.Name) and it.func.id == "enumerate" and it.args and dump(it.args[0]) == dump(ast.Attribute(value=target.value, attr=target.attr, ctx=ast.Load()))):
+    # the iterable may be a local bound once to enumerate(...) or to the attribute itself
+    if isinstance(it, ast.Name):
+        defs = [s2 for s2 in ast.walk(fi.node) if isinstance(s2, ast.Assign) and any(isinstance(t2, ast.Name) and t2.id == it.id for t2 in s2.targets)]
+        if len(defs) == 1:
+            it = defs[0].value
+    if not (isinstance(it, ast.Call) and isinstance(it.func, ast.Name) and it.func.id == "enumerate" and it.args):
+        return False
+    src_list = it.args[0]
+    if isinstance(src_list, ast.Name):
+        defs = [s2 for s2 in ast.walk(fi.node) if isinstance(s2, ast.Assign) and any(isinstance(t2, ast.Name) and t2.id == src_list.id for t2 in s2.targets)]
+        if len(defs) == 1:
+            src_list = defs[0].value
+    if dump(src_list) != dump(ast.Attribute(value=target.value, attr=target.attr, ctx=ast.Load())):
         return False
     for t in prog.resolve_expr_fn(fe, value):
         if isinstance(t, FunctionInfo):
